@@ -1,3 +1,117 @@
-import Sheens.ES
+import Sheens.Watcher
+import Sheens.Engine
+import Sheens.Proofs.WatcherInv
+import Sheens.Proofs.EngineLemmas
 
-/-! Property C11 — theorems (in progress). -/
+/-!
+# Property C11 — action timeouts are enforced  (partial: wall-clock promptness and goja's interrupt
+latency are trusted; what is proved is the protocol, over all interleavings)
+-/
+
+namespace Sheens.C11
+
+open Watcher
+
+def Reachable (terminates expired : Bool) (s : St) : Prop := ∃ tr, run terminates (St.init expired) tr = some s
+
+/-- `cancel()` is called before `Exec` returns. -/
+theorem cancel_before_return (t e : Bool) (s : St) (h : Reachable t e s) :
+    (∃ i, s.main = .done i ∨ s.main = .cancelled i) → s.cancelled = true := by
+  obtain ⟨tr, htr⟩ := h
+  have hi := inv_reachable t e s tr htr
+  rcases s with ⟨m, w, pd, c, p⟩
+  rintro ⟨i, hm | hm⟩ <;> simp only at hm <;> subst hm <;> cases c <;> simp_all [inv]
+
+/-- No goroutine outlives the call: once `Exec` has returned, the watcher is either gone or has only
+    enabled steps left (it is never blocked forever), and at quiescence it is gone. -/
+theorem watcher_never_blocked (t e : Bool) (s : St) (i : Bool) (h : Reachable t e s) (hd : s.main = .done i) :
+    (s.watch = .waiting → enabled t s .wake = true) ∧
+    (s.watch = .woke → enabled t s .interrupt = true) ∧
+    (quiescent t s = true → s.watch = .gone) := by
+  obtain ⟨tr, htr⟩ := h
+  have hi := inv_reachable t e s tr htr
+  rcases s with ⟨m, w, pd, c, p⟩
+  simp only at hd
+  subst hd
+  cases w <;> cases pd <;> cases c <;> cases p <;> cases t <;> cases i <;>
+    first
+    | (exact absurd hi (by decide))
+    | (refine ⟨?_, ?_, ?_⟩ <;> decide)
+
+/-- A script that does not terminate by itself can only leave `running` through an interrupt, and
+    the result is then the interrupted one. -/
+theorem nonterminating_ends_interrupted (e : Bool) (s : St) (i : Bool) (h : Reachable false e s)
+    (hd : s.main = .returned i ∨ s.main = .cancelled i ∨ s.main = .done i) : i = true := by
+  obtain ⟨tr, htr⟩ := h
+  have hi := inv_reachable false e s tr htr
+  rcases s with ⟨m, w, pd, c, p⟩
+  cases i
+  · rcases hd with hm | hm | hm <;> simp only at hm <;> subst hm <;> simp [inv] at hi
+  · rfl
+
+/-- Once the caller's context is done while the script runs, the interrupt is on its way: in every
+    reachable state with the program still running, some internal step is enabled that leads towards
+    the stop (the watcher wakes, delivers, the program stops) — the execution cannot hang. -/
+theorem running_after_done_progresses (t e : Bool) (s : St) (h : Reachable t e s)
+    (hr : s.main = .running) (hp : s.parentDone = true) :
+    enabled t s .wake = true ∨ enabled t s .interrupt = true ∨ enabled t s .stop = true := by
+  obtain ⟨tr, htr⟩ := h
+  have hi := inv_reachable t e s tr htr
+  rcases s with ⟨m, w, pd, c, p⟩
+  simp only at hr hp
+  subst hr hp
+  cases w <;> cases c <;> cases p <;> cases t <;>
+    first
+    | (exact absurd hi (by decide))
+    | decide
+
+/-- Nothing blocks before the return either: a reachable state is quiescent only when `Exec` has
+    returned and the watcher is gone, or when a terminating-or-not script is still running with the
+    caller's context alive (it is then the script's own time). -/
+theorem quiescent_means_done_or_waiting_for_script (t e : Bool) (s : St) (h : Reachable t e s)
+    (hq : quiescent t s = true) :
+    (∃ i, s.main = .done i ∧ s.watch = .gone) ∨ (s.main = .running ∧ s.parentDone = false ∧ t = false) := by
+  obtain ⟨tr, htr⟩ := h
+  have hi := inv_reachable t e s tr htr
+  rcases s with ⟨m, w, pd, c, p⟩
+  rcases m with _ | (_ | _) | (_ | _) | (_ | _) <;> cases w <;> cases pd <;> cases c <;> cases p <;>
+    cases t <;>
+    first
+    | (exact absurd hi (by decide))
+    | (exact absurd hq (by decide))
+    | (exact Or.inl ⟨_, rfl, rfl⟩)
+    | (exact Or.inr ⟨rfl, rfl, rfl⟩)
+
+/-- A script that finished by itself is not reported as interrupted even if the watcher fires later. -/
+theorem finished_is_not_interrupted (t e : Bool) (s s' : St) (h : Reachable t e s)
+    (hf : step t s .finish = some s') (tr : List Act) (s'' : St) (hr : run t s' tr = some s'') (i : Bool)
+    (hd : s''.main = .done i) : i = false := by
+  have _ := h   -- reachability of `s` is not needed
+  have hc : cleanMain s' = true := by
+    simp only [Watcher.step] at hf
+    split at hf
+    · simp only [Option.some.injEq] at hf
+      subst hf
+      rfl
+    · exact absurd hf (by simp)
+  have hc' := cleanMain_run t tr s' s'' hc hr
+  cases i
+  · rfl
+  · simp [cleanMain, hd] at hc'
+
+/-- The timeout is an action error like any other: the step routes it through the error settings
+    (C04's `step_error_*` and C07's `action_error_*` theorems apply verbatim to an action whose
+    execution returns the error `RuntimeError: timeout`). -/
+theorem timeout_is_an_action_error (s : Spec) (st : State) (pending : Option V) (n : Node) (a : ActionF)
+    (hc : s.compiled = true) (hn : findNode st.node s.nodes = some n) (ha : n.action = some a)
+    (hm : ∀ br, n.branches = some br → br.type ≠ "message")
+    (he : (execWrap a st.bs).err = some "RuntimeError: timeout") (hb : s.actionErrorBranches = false)
+    (ht : s.actionErrorNode ≠ "") :
+    ∃ sd, (step s st pending).stride = some sd ∧
+      sd.to = some { node := s.actionErrorNode,
+                     bs := some (insertB "error" (.str "RuntimeError: timeout")
+                              (insertB "actionError" (.str "RuntimeError: timeout") (copyB st.bs))) } := by
+  rw [step_action_err_node s st pending n a _ hc hn ha hm he hb ht]
+  exact ⟨_, rfl, rfl⟩
+
+end Sheens.C11
